@@ -120,7 +120,9 @@ Definition tab_wf (h : N -> sym) (t : table) : Prop :=
   NoDup (keys t) /\ Forall (fun e => fst e = norm (sname (h (snd e)))) t.
 (* an imported symbol's container symbol is declared in the same table (what the frontend builds) *)
 Definition imports_local (h : N -> sym) (t : table) : Prop :=
-  forall s c, In s (syms t) -> sintf (h s) = IImport c -> In c (syms t).
+  (forall s c, In s (syms t) -> sintf (h s) = IImport c -> In c (syms t))
+  (* and the member routines of a generic interface are declared in the same table *)
+  /\ (forall s m, In s (syms t) -> In m (smem (h s)) -> In m (syms t)).
 
 Lemma lookup_deep_copy : forall h soff t s,
   tab_wf h t -> In s (syms t) ->
